@@ -168,7 +168,8 @@ def deep_rejections(res, tier):
 
 
 def has_indefinite(b: bytes) -> bool:
-    """does the first CBOR item of `b` use an indefinite length anywhere (outside the model: cbor2 accepts it, the model does not)?"""
+    """does the first CBOR item of `b` use an indefinite length, or a semantic tag that cbor2 turns into a Python object (or fails to),
+    anywhere?  Both are outside the model: cbor2 treats them specially, the model reads a tag as a tag and no indefinite lengths."""
     pos = 0
     todo = 1
     try:
@@ -178,7 +179,9 @@ def has_indefinite(b: bytes) -> bool:
             pos += 1
             major, ai = ib >> 5, ib & 31
             if ai == 31:
-                return major in (2, 3, 4, 5)
+                # indefinite lengths, and a break code anywhere but as the very first byte (cbor2 6 hands out a marker object for it even
+                # inside a definite-length container; the model knows the marker at the top of a decode only)
+                return major in (2, 3, 4, 5) or (major == 7 and pos > 1)
             if ai < 24:
                 arg = ai
             elif ai <= 27:
@@ -194,6 +197,8 @@ def has_indefinite(b: bytes) -> bool:
             elif major == 5:
                 todo += 2 * arg
             elif major == 6:
+                if arg not in (18, 96, 107, 999):
+                    return True
                 todo += 1
             if todo > 100000:
                 return False
